@@ -162,6 +162,44 @@ SHIM_LIST = [
 ]
 
 _active = False
+_SNAP = {}  # module name -> {global name: (kind, value)}
+_DATA = (int, float, str, bytes, bool, type(None), tuple, frozenset)
+
+
+def _snap_module(name, mod):
+    snap = {}
+    for k, v in list(mod.__dict__.items()):
+        if k.startswith("__") or k.startswith("sx_"):
+            continue
+        if type(v) in _DATA:
+            snap[k] = ("ref", v, None)
+        elif type(v) in (dict, list, set):
+            snap[k] = ("copy", v, type(v)(v))
+    _SNAP[name] = snap
+
+
+def restore_globals():
+    """Module-level data of websocket.* (defaults set through setdefaulttimeout/setReconnect/enableTrace, caches a change may
+    introduce) is put back to its state after import before every explored path: one path is one fresh process as far as the
+    library can tell, exactly what the native replay of a counterexample is."""
+    for name, mod in list(sys.modules.items()):
+        if mod is None or not (name == "websocket" or name.startswith("websocket.")):
+            continue
+        snap = _SNAP.get(name)
+        if snap is None:
+            _snap_module(name, mod)
+            continue
+        g = mod.__dict__
+        for k, (kind, obj, copy) in snap.items():
+            if kind == "ref":
+                if g.get(k, _SNAP) is not obj:
+                    g[k] = obj
+            else:
+                if obj != copy:
+                    obj.clear()
+                    (obj.extend if type(obj) is list else obj.update)(copy)
+                if g.get(k, _SNAP) is not obj:
+                    g[k] = obj
 
 
 def activate(root=None):
@@ -185,3 +223,5 @@ def activate(root=None):
     _active = True
     import websocket  # noqa
     import websocket._abnf, websocket._core, websocket._app, websocket._utils  # noqa
+    _SNAP.clear()
+    restore_globals()  # first call takes the snapshots
